@@ -156,11 +156,15 @@ def rule_ep_pair(ctx):
         first_assign_blocks = {bi for bi, _ in assigns}
         clear = None
         sets = []
+        readback = []
         for bi, t in toggles:
             arg = sym.operand(t["args"][1])
             reads_field = any(isinstance(x, tuple) and x[0] == "field" and x[-1] == "en_passant_file" and mir.strip_refs(x[1]) == ("arg", b.local_name(1)) for x in walk(arg))
             # the `if let Some(file) = self.en_passant_file` form reads the payload
-            if reads_field:
+            if reads_field and first_assign_blocks and bi not in b.reachable_from(0, removed=first_assign_blocks, include_start=True):
+                # ... after the field was overwritten: `self.ep = new; if let Some(f) = self.ep { toggle(f) }` toggles the new word in
+                readback.append((bi, t, arg))
+            elif reads_field:
                 clear = (bi, t, arg)
             else:
                 sets.append((bi, t, arg))
@@ -185,6 +189,18 @@ def rule_ep_pair(ctx):
             v = sym.rvalue(s["rv"])
             if v[0] == "agg" and v[2] == "Some":
                 some_assigns.append((ab, v[3][0]))
+        if len(readback) == 1 and not sets:
+            rb = readback[0][0]
+            allc = C.constraints_for(ix, b, sym, rb)
+            guards = [c for c in allc if "en_passant_file" in c[0] and c[2] not in b.reachable_from(0, removed=first_assign_blocks, include_start=True)]
+            others = [c for c in allc if c not in guards and not (clear is not None and c in C.constraints_for(ix, b, sym, clear[0]))]
+            gb = guards[-1][2] if guards else None
+            ok_rb = bool(guards) and all(("Some" in g[1] or True in g[1]) for g in guards) and not others \
+                and all(ab == gb or mir.EXIT not in b.reachable_from(ab, removed={gb}) for ab in first_assign_blocks) \
+                and not any(ab in b.reachable_from(gb) for ab in first_assign_blocks)
+            ctx.check(ok_rb, "%s:set-new-ep-word" % key, "after en_passant_file is overwritten, its word is toggled in exactly when the new value is Some (read back from the field)", b.where(rb),
+                      bad_what="the toggle that reads the new en_passant_file back is not guarded by just `en_passant_file is Some` on every path after the store (other conditions: %s)" % [c[0][:60] for c in others])
+            continue
         for ab, x in some_assigns:
             paired = [(bi, a) for bi, t, a in sets if a == x and b.control_equivalent(min(ab, bi), max(ab, bi)) or (a == x and same_region(b, ab, bi))]
             ctx.check(len(paired) == 1, "%s:set-new-ep-word" % key, "en_passant_file = Some(x) is paired with exactly one change_en_passant(x) in the same control region", b.where(ab),
